@@ -6,12 +6,16 @@ d=/tmp/seedv_$id
 git -C /repo worktree remove --force $d 2>/dev/null; rm -rf $d $d.verif_out
 git -C /repo worktree add -q --detach $d HEAD
 (cd /repo && find miasm -name "*.so" | while read f; do cp $f $d/$f; done)
+/venv/bin/python /verif/tools/install_ext.py $d >/dev/null
 cd $d
+export TMPDIR=$(mktemp -d /tmp/seedv_tmp_XXXXXX)
 cp /tmp/seed_$id/demo.py $d/demo.py
 demo="PYTHONPATH=$d /venv/bin/python $d/demo.py"
 echo "== demo WITHOUT change"; (eval "$demo") > /tmp/seedv_$id.without.log 2>&1; echo "exit=$?"
 git apply $patch || { echo "PATCH DOES NOT APPLY"; exit 3; }
+/venv/bin/python /verif/tools/install_ext.py $d >/dev/null
 echo "== demo WITH change"; (eval "$demo") > /tmp/seedv_$id.with.log 2>&1; echo "exit=$?"
 echo "== pinned suite WITH change"; /venv/bin/python -m pytest -q -p no:cacheprovider --timeout=900 --continue-on-collection-errors 2>&1 | tail -1
 echo "== our check ($tier) WITH change"
 cd /verif && VERIF_REPO=$d timeout 1800 ./check $id --tier $tier 2>&1 | grep -E "^VIOLATION|tier=|HARNESS" | cut -c1-300 | head -8
+rm -rf $TMPDIR
